@@ -5,7 +5,7 @@
 (* stand-alone sign repair and stabilizer synthesis, state comparison,     *)
 (* the circuit-text parser.  Same protocol: Judge(record) = failed clauses.*)
 (***************************************************************************)
-EXTENDS ClassIds, TLC
+EXTENDS ClassIds, TLC, SequencesExt
 
 CX(cond, clause) == IF cond THEN {} ELSE {clause}
 Z0n(n) == [i \in 1..n |-> ZOn(i - 1)]
@@ -70,10 +70,40 @@ JudgeParse(r) ==
    ELSE CX(r.wellformed = 0 \/ r.gates = r.expected, "parse")
         \cup CX(r.wellformed = 1, "silently-accepted")
 
+(* zpauli: z_pauli_from_bitstring(n, b) for 0 <= b < 2^n is the n-qubit Pauli with Z exactly on the set bits of b (little-endian),  *)
+(* no X part, phase 0: in the code of Pauli.tla that is 256 * b.                                                                       *)
+JudgeZPauli(r) ==
+   IF r.outcome = "raise" THEN {"zpauli-raised"}
+   ELSE CX(r.nq = r.n, "zpauli-width") \cup CX(r.code = 256 * r.b, "zpauli-support") \cup CX(r.phase = 0, "zpauli-phase")
+
+(* pairidx: linear_index_from_n_choose_2(n, i, j) is the rank of (i, j) among the pairs i < j of 0..n-1 in lexicographic order, and    *)
+(* linear_index_to_n_choose2_to is its inverse.                                                                                        *)
+LexLess(p, q) == p[1] < q[1] \/ (p[1] = q[1] /\ p[2] < q[2])
+PairRank(n, i, j) == Cardinality({p \in Pairs(n) : LexLess(p, <<i, j>>)})
+JudgePairIdx(r) ==
+   IF r.outcome = "raise" THEN {"pairidx-raised"}
+   ELSE CX(r.idx = PairRank(r.n, r.i, r.j), "pairidx-rank") \cup CX(r.back = <<r.i, r.j>>, "pairidx-inverse")
+
+(* repr: Repr(list of integer lists): every entry becomes a sorted tuple; groups[k] holds the tuples of length k in insertion order   *)
+(* (empty groups up to the largest length present); flatten concatenates group by group.                                              *)
+SortedTuple(t) == SortSeq(t, LAMBDA a, b : a < b)
+MaxLen(L) == IF Len(L) = 0 THEN 0 ELSE CHOOSE m \in {Len(L[i]) : i \in 1..Len(L)} : \A i \in 1..Len(L) : Len(L[i]) <= m
+ReprGroups(L) == [k \in 1..MaxLen(L) |-> LET idx == SelectSeq([i \in 1..Len(L) |-> i], LAMBDA i : Len(L[i]) = k)
+                                          IN [m \in 1..Len(idx) |-> SortedTuple(L[idx[m]])]]
+JudgeRepr(r) ==
+   IF r.outcome = "raise" THEN {"repr-raised"}
+   ELSE LET G == ReprGroups(r.lists)
+        IN CX(r.groups = G, "repr-groups")
+           \cup CX(r.flat = FlattenSeq(FlattenSeq(G)), "repr-flatten")
+           \cup CX(r.selfeq = 1, "repr-eq")
+
 JudgeExtra(r) == CASE r.op = "graphbuild" -> JudgeGraphBuild(r)
                    [] r.op = "rotate" -> JudgeRotate(r)
                    [] r.op = "synth" -> JudgeSynth(r)
                    [] r.op = "same" -> JudgeSame(r)
                    [] r.op = "parse" -> JudgeParse(r)
+                   [] r.op = "zpauli" -> JudgeZPauli(r)
+                   [] r.op = "pairidx" -> JudgePairIdx(r)
+                   [] r.op = "repr" -> JudgeRepr(r)
                    [] OTHER -> {"unknown-op"}
 =============================================================================
